@@ -3234,10 +3234,11 @@ The what argument tells us what sort of state is expected (allowed values are de
         #
         # Gather the required information
         #
-        if checkRecursive and not userInfo:
-            if self.verbose:
-                print("Calculating product dependencies recursively...", file=utils.stdwarn)
-            userInfo = self.uses(None)
+        if checkRecursive:
+            if not userInfo:
+                if self.verbose:
+                    print("Calculating product dependencies recursively...", file=utils.stdwarn)
+                userInfo = self.uses(None)
         else:
             userInfo = None
 
